@@ -1,4 +1,6 @@
 import RasnModel.Lexer.Input
+import RasnModel.Lexer.Context
+import RasnModel.Proofs.Context
 /-
   C17 — syntax errors are reported at the malformed definition, consistently.
   Proved here: the refinement of the position bookkeeping to the abstract map offset ↦ line,
@@ -74,5 +76,113 @@ theorem C17_reported_position_consistent (src : Bytes) (ops : List Op)
 example : let src : Bytes := [97, 98, 10, 99, 100, 10, 101, 102]
     ([Op.slice 4 none, .reset, .slice 1 (some 3)].foldl (step src) (init src)) = ⟨5, 2, 4, 2, 2, 4⟩ := by
   decide
+
+/-! ### the excerpt rendered by `contextualize` (model `Lexer/Context`) -/
+open Lexer.Context Proofs.Context
+
+/-- C17_excerpt_sound: for EVERY source and EVERY report whose context start carries its true line
+    number, every line the excerpt shows is labelled with the true number of the source line it shows:
+    it starts at a position `pos` behind the context start that is preceded by exactly `label - 1`
+    line feeds and stands at a line start (or is the context start itself), its text is a prefix of
+    that source line, and it is marked exactly when its label is the reported line. -/
+theorem C17_excerpt_sound (src : Bytes) (ctxOff ctxLine off line : Nat)
+    (hc : ctxLine = 1 + countNL (src.take ctxOff)) :
+    ∀ e ∈ contextualize src ctxOff ctxLine off line,
+      ∃ pos, ctxOff ≤ pos ∧ e.label = 1 + countNL (src.take pos) ∧
+        (pos = ctxOff ∨ src[pos - 1]? = some 10) ∧
+        e.text <+: (src.drop pos).takeWhile (· != 10) ∧ (e.marked = true ↔ e.label = line) := by
+  intro e he
+  unfold contextualize excerpt at he
+  obtain ⟨n, hn⟩ := context_is_prefix (src.drop ctxOff) (off - ctxOff + 1) 300
+  rw [hn] at he
+  obtain ⟨j, l, hj, _, rfl⟩ := entriesFrom_spec ctxLine line _ 0 e he
+  obtain ⟨p, hp, hcnt, hstart, rfl⟩ := splitLines_spec _ j l hj
+  have hpn : p ≤ n := by simp at hp; omega
+  refine ⟨ctxOff + p, by omega, ?_, ?_, ?_, ?_⟩
+  · simp only [Nat.zero_add]
+    rw [take_add, countNL_append, hc]
+    rw [List.take_take, Nat.min_eq_left hpn] at hcnt
+    omega
+  · cases p with
+    | zero => exact Or.inl rfl
+    | succ q =>
+      rcases hstart with h0 | hstart
+      · exact absurd h0 (by omega)
+      · right
+        simp only [Nat.add_sub_cancel] at hstart
+        rw [List.getElem?_take] at hstart
+        split at hstart
+        · rw [List.getElem?_drop] at hstart
+          have : ctxOff + (q + 1) - 1 = ctxOff + q := by omega
+          rw [this]; exact hstart
+        · cases hstart
+  · refine List.IsPrefix.trans (trimEnd_prefix _) ?_
+    rw [List.drop_take, ← List.drop_drop]
+    exact takeWhile_take_prefix _ _ _
+  · simp
+
+/-- C17_at_most_one_marked: the excerpt never marks two lines (labels increase strictly). -/
+theorem C17_at_most_one_marked (src : Bytes) (ctxOff ctxLine off line : Nat) :
+    ((contextualize src ctxOff ctxLine off line).filter (·.marked)).length ≤ 1 := by
+  unfold contextualize excerpt
+  generalize untilNextUnindented _ _ _ = c
+  have hpw := (entriesFrom_labels_lt ctxLine line (splitLines c) 0).2
+  have hall : ∀ e ∈ entriesFrom ctxLine line (splitLines c) 0, e.marked = true → e.label = line := by
+    intro e he hm
+    obtain ⟨j, l, _, _, rfl⟩ := entriesFrom_spec ctxLine line _ 0 e he
+    simpa using hm
+  generalize entriesFrom ctxLine line (splitLines c) 0 = es at hpw hall
+  have hf : (es.filter (·.marked)).Pairwise (fun a b => a.label < b.label) := hpw.sublist List.filter_sublist
+  have hl : ∀ e ∈ es.filter (·.marked), e.label = line := by
+    intro e he
+    rw [List.mem_filter] at he
+    exact hall e he.1 he.2
+  generalize es.filter (·.marked) = ms at hf hl
+  match ms, hf, hl with
+  | [], _, _ => simp
+  | [_], _, _ => simp
+  | a :: b :: _, hf, hl =>
+    have h1 := hl a (by simp)
+    have h2 := hl b (by simp)
+    have := (List.pairwise_cons.mp hf).1 b (by simp)
+    omega
+
+/-- C17_context_reaches_offset: the text handed to the excerpt always reaches the failing position
+    (the byte at `at_least_until - 1`, or the end of the input): it is the first `n` bytes, possibly
+    without trailing white space, for some `n ≥ min(at_least_until, |input|)`. Before fix `d0f95fd`
+    the fallback stopped at 300 bytes. -/
+theorem C17_context_reaches_offset (input : Bytes) (atLeast fb : Nat) :
+    ∃ n, min atLeast input.length ≤ n ∧
+      (untilNextUnindented input atLeast fb = input.take n ∨ untilNextUnindented input atLeast fb = trimEnd (input.take n)) := by
+  unfold untilNextUnindented
+  simp only
+  split
+  · exact ⟨_, by have := le_boundaryUp input (min atLeast input.length); omega, Or.inl rfl⟩
+  · refine ⟨_, ?_, Or.inr rfl⟩
+    have hle := le_boundaryUp input (min atLeast input.length)
+    have hb := boundaryUp_is_boundary input (min atLeast input.length)
+    generalize boundaryUp input (min atLeast input.length) = a at hle hb
+    by_cases hlen : a ≤ input.length
+    · have := le_boundaryDown input a hb (min input.length (max fb a)) (by omega)
+      omega
+    · -- the boundary lies behind the text: cannot happen for `a ≤ |input|`, but the bound holds anyway
+      have h2 : min atLeast input.length ≤ input.length := Nat.min_le_right _ _
+      have hnone : input[input.length]? = none := by simp
+      have := le_boundaryDown input input.length (Or.inl hnone) (min input.length (max fb a)) (by omega)
+      omega
+
+/-- the witness of the defect repaired by `d0f95fd` ("A\n\nB {\n x\n}\n E\n", context start at the
+    first line feed, error at `B`, line 3): the old fallback trimmed the two line feeds the context
+    begins with, labelled `B {` with 1 and marked `}`; the repaired one marks `B {` as line 3. -/
+def witness : Bytes := [65, 10, 10, 66, 32, 123, 10, 32, 120, 10, 125, 10, 32, 69, 10]
+
+theorem C17_old_excerpt_counterexample :
+    (contextualizeOld witness 1 1 3 3).filter (·.marked) = [⟨3, [125], true⟩] ∧
+    (contextualize witness 1 1 3 3).filter (·.marked) = [⟨3, [66, 32, 123], true⟩] ∧
+    sourceLine witness 3 = [66, 32, 123] := by
+  decide
+
+/-- non-vacuity of C17_excerpt_sound: the witness report is consistent and its excerpt has entries -/
+example : (1 : Nat) = 1 + countNL (witness.take 1) ∧ (contextualize witness 1 1 3 3).length = 4 := by decide
 
 end Props.C17
